@@ -571,6 +571,53 @@ def handover_execute(variant, k):
         sc.close()
 
 
+STOP_STATES = ("dial-in-progress", "dialled-awaiting-CEA", "inbound-awaiting-CER", "ready", "ready+dial-in-progress")
+
+
+def stop_residue(args):
+    """stop() (graceful and forced) with connections in the middle of being established: afterwards no worker thread is alive and no
+    socket is open, whatever state the connections were in."""
+    state, force = args
+    import copy
+    cfg = copy.deepcopy(SCHED_CFG)
+    cfg["node"]["wakeup"] = 1
+    plan = []
+    if "dial" in state:
+        cfg["peers"][0].update({"ips": ["10.1.0.1"], "persistent": True, "reconnect_wait": 600})
+        plan = ["inprogress" if "in-progress" in state else "ok"]
+    sc = scenario.Scenario(cfg, max_socks=4, start_plan=plan or ["refused"], app_timeout=1)
+    try:
+        nw = sc.start()
+        if state == "inbound-awaiting-CER":
+            sc.apply(("accept",))
+        if state.startswith("ready"):
+            sc.max_socks = len(sc.socks) + 1
+            sc.apply(("accept",))
+            sc.apply(("m", len(sc.socks) - 1, "cer_p1"))
+        sc.apply(("stop", force, 2))
+        for _ in range(12):
+            for x in sc.socks:
+                if not x.fs.closed and not x.env_closed and any(f.h.is_request and f.h.code == 282 for f in x.out):
+                    sc.apply(("m", x.idx, "dpa"))
+            sc.apply(("tick", 1))
+        vs = []
+        returned = any(r[1] == "stop_returned" for r in nw.world.log)
+        live = sorted(str(t.kind or t.name) for t in nw.world.live_threads())
+        open_socks = [(x.sid, x.kind) for x in nw.world.socks if not x.closed]
+        case = {"stop_residue": [state, force]}
+        if not returned:
+            vs.append(("shutdown-residue:stop-did-not-return", f"{state}, force={force}", case))
+        if live:
+            vs.append((f"shutdown-residue:worker-threads-alive-after-stop:{'+'.join(sorted(set(live)))}", f"{state}, force={force}: {live}", case))
+        if open_socks:
+            vs.append(("shutdown-residue:sockets-open-after-stop", f"{state}, force={force}: {open_socks}", case))
+        return vs
+    except sk.Livelock as e:
+        return [("livelock:node-threads-never-reach-quiescence", f"stop residue {state}: {e}", {"stop_residue": [state, force]})]
+    finally:
+        sc.close()
+
+
 def work(args):
     names, lo, hi = args[:3]
     policy = args[3] if len(args) > 3 else None
@@ -637,6 +684,11 @@ def run(tier):
             rep.add(Violation(key, detail, {"handover": list(v), "step": k}))
         rep.sample({"fault_at_every_step": f"{v[1]} at every kernel step of the handling of {v[0]}, I/O thread reacts at once; then 1 + 3 requests", "points": pts, "executions": n})
     rep.cov["schedules"] = nsched
+    residue_jobs = [(st, f) for st in STOP_STATES for f in (False, True)]
+    for vsl in common.pmap(stop_residue, residue_jobs, chunksize=1):
+        for key, detail, case in vsl:
+            rep.add(Violation(key, detail, case))
+    rep.cov["stop_residue_cases"] = len(residue_jobs)
     rep.sample({"cycles": names})
     rep.sample({"example_measure_keys": sorted(run_sequence(("inbound-request-answered",), 1)[0])[:25]})
     rep.cov.update({"states": len(jobs) * 2, "transitions": total_cycles, "traces_validated_against_impl": len(jobs) * 2,
@@ -650,6 +702,8 @@ def run(tier):
 
 
 def replay(case):
+    if "stop_residue" in case:
+        return [Violation(k, d) for k, d, c in stop_residue(tuple(case["stop_residue"]))]
     if "handover" in case:
         fired, steps, vs = handover_execute(tuple(case["handover"]), case["step"])
         return [Violation(k, d) for k, d in vs]
